@@ -2122,7 +2122,9 @@ namespace gch
         GCH_TRY
         {
           // Note: Not != because `using namespace std::rel_ops` can break constexpr.
-          for (; ! (first == last); ++first, static_cast<void> (++d_last))
+          // Note: `d_last` is advanced first so that the element which was just constructed is
+          //       cleaned up if incrementing `first` throws.
+          for (; ! (first == last); static_cast<void> (++d_last), ++first)
             construct (d_last, *first);
           return d_last;
         }
